@@ -26,7 +26,7 @@ def tla_value(v) -> str:
     if isinstance(v, int):
         return str(v)
     if isinstance(v, str):
-        return '"' + v.replace("\\", "\\\\").replace('"', '\\"') + '"'
+        return '"' + v.replace("\\", "\\\\").replace('"', '\\"').replace("\n", "\\n").replace("\t", "\\t").replace("\r", "\\r").replace("\f", "\\f") + '"'
     if isinstance(v, (list, tuple)):
         return "<<" + ", ".join(tla_value(x) for x in v) + ">>"
     if isinstance(v, (set, frozenset)):
@@ -73,7 +73,7 @@ def run_tlc(
     meta = os.path.join(run.dir, f"meta-{name}")
     libs = [SPEC, os.path.join(SPEC, "gen"), run.dir] + (extra_lib or [])
     cmd = [
-        "java", "-XX:+UseParallelGC", f"-Xmx{heap}", "-DTLA-Library=" + ":".join(libs),
+        "java", "-XX:+UseParallelGC", "-Xss256m", f"-Xmx{heap}", "-DTLA-Library=" + ":".join(libs),
         "-cp", JAR, "tlc2.TLC", "-workers", str(workers or NCPU), "-metadir", meta,
         "-noGenerateSpecTE", "-config", cfgp,
     ]
